@@ -4,7 +4,7 @@
   (`vm/instructions/arithmetic.py`, `comparison.py`, `bitwise.py`).  Hand-written, core Lean only,
   independent of the Go sources.  Operands are listed in stack order: first argument = top of stack (μs[0]).
 -/
-namespace Shentu.EVM.Spec
+namespace Shentu.Arith.Spec
 
 abbrev Word := BitVec 256
 
@@ -159,4 +159,4 @@ theorem sar_eq_bv (s x : Word) : sar s x = x.sshiftRight s.toNat := by
         exact (this.2 ⟨by split at hxi <;> omega, by omega, by omega⟩).1
       rw [this]
   · rfl
-end Shentu.EVM.Spec
+end Shentu.Arith.Spec
